@@ -15,7 +15,10 @@ META = {
     "technique": "DetCfg.tla (configuration machine: collector flag / forced collection schedule, ASLR, working directory, environment, "
                  "batched or separate invocation, repetition) enumerated by TLC gives the configurations; every emitted file and the "
                  "message stream of every input under every chosen configuration is an Observe event validated by TLC against the Obs "
-                 "monitor (TraceDet.tla): a second observation of an input that differs from the first is rejected",
+                 "monitor (TraceDet.tla): a second observation of an input that differs from the first is rejected.  Every output is "
+                 "observed as its full text and through the projections of DetCfg!Projections (functions of the text that the one "
+                 "recorded defect of the batch axis, a renumbering of lexical slots, cannot change), each an input of its own; "
+                 "DetCfg also enumerates the batch compositions (which kind of file precedes which in one invocation)",
     "design_ref": "DESIGN.md 3.11 (Obs), 5 C08, Appendix A, D",
     "level_text": "TLC enumerates the whole configuration space of DetCfg.tla (1584 configurations, invariants on the concretisation, the "
                   "star around the baseline covers every axis value) and checks the Obs monitor against its specification (ObsMC.tla), then "
@@ -23,7 +26,15 @@ META = {
                   "combinations, on library-free corpus files, generated programs (well- and ill-typed) and corpus programs, requesting "
                   "-Fao -Ffm -Fc -Flsp -Fjava. Each (file, output kind) is an input of the Obs monitor and each run contributes its "
                   "content digest; TLC (TraceDet.tla) replays all observations, checks that every event carries a valid configuration, "
-                  "and reports each rejected Observe with the two configurations and the axes on which they differ.",
+                  "and reports each rejected Observe with the two configurations and the axes on which they differ.  Batch axis: "
+                  "DetCfg enumerates all sequences of 2..4 (file kind, representative) over 8 kinds (library-free, ordinary program, "
+                  "many literals, Foreign C imports from two overlapping header sets, a user of one header, assertions/piles/"
+                  "directory directives with sensors in every other file, diagnostics); quick realises all 72 two-file batches "
+                  "(every kind directly before every kind, the same file twice, two files of a kind) and a seeded sample of longer "
+                  "ones, thorough all 3-file batches and 700 4-file ones; per output 3-7 projections (c: #include lines, "
+                  "declarations, structs, functions, literals, canonical token text, gcc -fsyntax-only; fm/lsp: tags, globals, "
+                  "constants, formats, literals, progs, canonical form; java: imports, members, literals, canonical text; ao: "
+                  "section table, identity sections, code-section sizes) are observed in the baseline and in every batched run.",
     "level_note": "An equality-between-runs property: there is no independent expected value, the monitor compares runs. Forced "
                   "collection with periods below 50 is applied to library-free inputs only and periods below 1000 to small programs "
                   "only (cost). Batched invocations are additionally observed under an input of their own, so that the other axes are "
@@ -239,7 +250,7 @@ def run(chk, tier):
     chk.sample({"configuration": used[-1]})
     k0 = sorted(by_input)[0]
     chk.sample({"events": [e for _, e in by_input[k0][:3]]})
-    chk.rule = ("a case is (source file, output kind in ao/fm/c/lsp/java/msg [, the batch it was compiled in]) or (group, exit status); "
+    chk.rule = ("a case is (source file, output kind in ao/fm/c/lsp/java/msg [: projection] [, the batch it was compiled in]) or (group, exit status); "
                 "it is non-trivial if the output exists under some configuration; each case is observed under the baseline configuration, "
                 "every single-axis variation of it and seeded combinations, all taken from the TLC export of DetCfg.tla")
     chk.exhaustive = False
@@ -251,6 +262,9 @@ def run(chk, tier):
                            "one invocation is compared with that of several only as zero / non-zero")
     chk.assumptions.append("an invocation that does not exit within 100 times its estimated CPU time plus two minutes, and again within "
                            "three times that, is observed as a hang (a different observation than any terminated run)")
+    chk.assumptions.append("projections are observed in the baseline and in batched runs only (on the other axes the full text is compared "
+                           "and no finding is open); a full-text difference of a code output between a separate and a batched compilation "
+                           "is matched against the recorded renumbering finding, a difference of a projection never is")
     chk.assumptions.append("the working-directory axis is two directories of different depth and name length, sources addressed by relative name")
 
 
@@ -364,6 +378,24 @@ Unchanged tree: held (known findings only) with VERIF_SEED 20261004, 777, 1, 42,
 (seeds 31337, 90210: ill-typed generated programs with `vbad4'); thorough tier: bug1247.as crashes or succeeds depending on the forced
 schedule (out-of-bounds read with an unresolved forward constant number), abcheck1.as diagnostics depend on ASLR.  All reproduced by hand
 (two commands + diff) and recorded in known_findings.jsonl; candidate patches hooks/fix-C08-*.diff for three of them.
+
+Strengthening (batch axis made precise; see DetCfg!Projections, FileKinds, gen/detproj.py):
+ seeded C08-2 (genc.c: list of included C headers only popped) was MISSED before (every .c difference on the inv axis matched the
+ renumbering finding); now CAUGHT: c:includes / c:canon of f_fhdrA1, f_fhdrB2, f_tiny1 on inv.  C08-1, C08-3 still caught.
+ Own mutants (family experiment, all caught): genc.c ccHdrFileList never emptied -> c:includes, c:canon; include.c includeFile keeps
+ the assertions of a file (globalAssertList = localAssertList) -> the sensors fire: 20 projections of c/fm/lsp/java/ao (literals, tags,
+ canon, globals ...) of every file after a `prag' file.
+ New findings on the unchanged tree that the broad key had hidden (all reproduced by hand, recorded with specific keys):
+  - genc.c gcvNBInts / gcvNRRFmt never reset: GB<n>/GA<n> names of the 2nd+ file continue the numbering (-Q3; c:decls, c:canon;
+    sig bigint-number; hooks/candidate-C08-bigint-counter-reset.diff removes it);
+  - stab.c stabSerialNoCounter not reset per file: type codes in the syme section of the .ao differ, also for library-free files and
+    the same file twice (sig syme-codes; hooks/candidate-C08-stab-serial-per-file.diff removes the triv1 case, one byte still differs
+    for a file that follows a file with errors -- not traced);
+  - a library-free file compiled after a library-using one records a reference to lang.ao and extra meanings in its .ao.
+ Projections tried and found stable on HEAD over all 72 pairs + 100 3-file + 100 4-file batches of the family and 30-60 random
+ 2-4-file batches of corpus/generated programs, seeds 1, 2, 3: all of PROJECTIONS.  Dropped because not invariant under the recorded
+ renumbering: ao size, ao printable strings (the number of meanings and the list of library files change), lsp tags with slot numbers.
+ Trace corruption: an event whose proj is not in DetCfg!Projections(kind) -> invariant ValidCfgs.
 False alarms met and removed while building: (1) a fatal error ("too many errors", "Program fault" of the Java generator) ends a
 multi-file invocation, the remaining files are never started -> such files are not observed for that run; (2) the exit status of a batch
 that ends by a fatal error is 1, not the sum of the error counts -> batch and separate runs are compared on zero / non-zero only;
